@@ -66,6 +66,10 @@ type JApiCore struct {
 	// currentContextDirective is current context for adding a child directive.
 	currentContextDirective *directive.Directive
 
+	// explicitContextFiles tells in which file the opening parenthesis of a
+	// directive with an explicit context stands.
+	explicitContextFiles map[*directive.Directive]*fs.File
+
 	// to accumulate directive data pieces from scanner.
 	currentDirective *directive.Directive
 
@@ -130,6 +134,7 @@ func NewJApiCore(file *fs.File, oo ...Option) *JApiCore {
 		macro:                  make(map[string]*directive.Directive, 20),
 		declaredTags:           make(map[string]struct{}, 20),
 		scannersStack:          &scanner.Stack{},
+		explicitContextFiles:   make(map[*directive.Directive]*fs.File, 20),
 		rules:                  map[string]jschema.Rule{},
 	}
 	core.directiveFunctions = map[directive.Enumeration]func(*directive.Directive) *jerr.JApiError{
